@@ -37,7 +37,76 @@ TYPES = ["_http._tcp.local.", "_ipp._tcp.local.", "_x-y._udp.local."]
 SETTLE = 17.0
 
 
+def _generate_hot(rng):
+    """A change issued in the instants around the start of a browser on another host: the unicast answers to the browser's
+    first (QU) query, the goodbyes or the update's announcements and the loss are all in flight together, with delays at
+    the extremes of what the link allows (worst-case reordering across the browser's sockets)."""
+    nh = rng.choice([2, 2, 3])
+    hosts = [f"H{i}" for i in range(nh)]
+    types = TYPES[:rng.choice([1, 2])]
+    ops = [{"t": 0.0, "op": "host", "h": h, "ip": f"10.0.0.{i + 1}",
+            "layout": rng.choice(["multi", "multi", "default"]) if i else rng.choice(["default", "multi"])}
+           for i, h in enumerate(hosts)]
+    svcs = []
+    for i in range(rng.choice([1, 1, 2, 3])):
+        hi = rng.choice([0, 0, nh - 1])
+        s = gen_services(rng, 1, types=types, hosts=[f"host{hi}.local."], prefix=f"S{i}x", custom_ttl=False)[0]
+        s["addrs"] = [f"10.0.0.{hi + 1}"] + ([f"fe80::{hi + 1}"] if rng.random() < 0.3 else [])
+        if hi % 2 == 1:
+            s["host_ttl"] = 60
+        ops.append({"t": round(0.05 + 0.3 * rng.random(), 6), "op": "register", "h": hosts[hi], "svc": s})
+        svcs.append((hosts[hi], s))
+    tb = round(rng.choice([2.0, 5.0]) + rng.random(), 6)
+    bh = rng.choice(hosts[1:])
+    if rng.random() < 0.7:
+        # the browsing host joins the link just before it browses: it has heard nothing yet
+        for o in ops:
+            if o["op"] == "host" and o["h"] == bh:
+                o["t"] = round(tb - rng.choice([0.01, 0.1, 0.5]), 6)
+        ops = [o for o in ops if o["op"] == "host" or o["h"] != bh]
+        svcs = [x for x in svcs if x[0] != bh]
+        if not svcs:
+            return _generate_hot(rng)
+    ops.append({"t": tb, "op": "browse", "h": bh, "id": "b0", "types": list(types),
+                "lookup_on_add": 3000 if rng.random() < 0.5 else None})
+    if rng.random() < 0.3:
+        ops.append({"t": round(rng.choice([0.5, tb + 0.01, tb + 1.0]), 6), "op": "browse", "h": rng.choice(hosts), "id": "b1",
+                    "types": [types[0]], "lookup_on_add": None})
+    h, s = svcs[0]
+    tc = round(tb + rng.choice([0.0, 0.02, 0.05, 0.1, 0.15, 0.25, 0.4, 1.0]) + 0.05 * rng.random(), 6)
+    kind = rng.choice(["unregister", "unregister", "unregister", "unregister", "update", "close"])
+    if kind == "unregister":
+        ops.append({"t": tc, "op": "unregister", "h": h, "name": s["name"]})
+        if rng.random() < 0.25:
+            ops.append({"t": round(tc + rng.choice([0.5, 1.0, 3.0]), 6), "op": "register", "h": h, "svc": dict(s, port=s["port"] + 7)})
+    elif kind == "update":
+        s2 = dict(s, port=s["port"] + 1, props={"ver": "2"})
+        ops.append({"t": tc, "op": "update", "h": h, "svc": s2})
+    else:
+        ops.append({"t": tc, "op": "close", "h": h})
+    if rng.random() < 0.75:
+        # ... issued a few milliseconds after the owner's first unicast reply (its answer to the new browser's QU query)
+        # left, at the latest at the time drawn above
+        for o in ops:
+            if o["t"] == tc and o["op"] == kind:
+                o["t"] = round(tb + 0.45, 6)
+                o["after_ucast"] = rng.choice([0.0, 0.001, 0.005, 0.005, 0.01, 0.02, 0.02, 0.05, 0.12])
+    ops.sort(key=lambda o: o["t"])
+    closing = {o["h"]: o["t"] for o in ops if o["op"] == "close"}
+    ops = [o for o in ops if o["op"] == "close" or o.get("h") not in closing or o["t"] < closing[o["h"]]]
+    faults = {"max_delay_us": 100000, "loop_delay_us": rng.choice([0, 500, 1000]), "dup_p": rng.choice([0.0, 0.0, 0.05]),
+              "extreme_p": rng.choice([0.5, 0.8, 1.0])}
+    sc = {"timer_slop_us": rng.choice([0, 0, 1, 50, 300]), "ops": ops, "faults": faults, "drop": None, "fixed": False,
+          "hosts": hosts, "hot": True}
+    if rng.random() < 0.85:
+        # the one lost datagram is one of those the change itself sends
+        sc["drop_after"] = [h, tc, rng.choice([0, 1, 2, 2, 3, 3, 4]), rng.choice([None, bh, bh])]
+    return sc
+
+
 def generate(rng, tier):
+    if rng.random() < 0.2:
+        return _generate_hot(rng)
     fixed = rng.random() < 0.15  # the fixed scenario of the single-loss enumeration sub-batch
     r2 = __import__("random").Random(7) if fixed else rng
     late = (not fixed) and r2.random() < 0.15
@@ -147,6 +216,10 @@ def shrink_extra(sc):
         t = dict(sc)
         t["drop"] = None
         yield t
+    if sc.get("drop_after"):
+        t = dict(sc)
+        t["drop_after"] = None
+        yield t
 
 
 def execute(scenario, seed, overrides=None):
@@ -159,11 +232,42 @@ def execute(scenario, seed, overrides=None):
         drv = Driver(w, scenario)
         if scenario.get("drop"):
             w.net.drop_tx = (scenario["drop"][0], scenario["drop"][1])
+        if scenario.get("drop_after"):
+            w.net.drop_after = tuple(scenario["drop_after"])
         last_op = max([o["t"] for o in scenario["ops"]] + [0.0])
         part_end = max([o["t"] + o["dur"] for o in scenario["ops"] if o["op"] == "partition"] + [0.0])
         # everything that counts as a change has happened by: last op + registration/goodbye durations
         t_quiet = max(last_op + 0.9, part_end)
         t_end = t_quiet + SETTLE
+
+        trig = [(i, o) for i, o in enumerate(scenario["ops"]) if o.get("after_ucast") is not None]
+        if trig:
+            fired = set()
+
+            def run_trig(i, o):
+                if i in fired:
+                    return
+                fired.add(i)
+                if scenario.get("drop_after") and scenario["drop_after"][0] == o["h"]:
+                    w.net.drop_after = (o["h"], w.now - w.t0, scenario["drop_after"][2], scenario["drop_after"][3])
+                orig_run(i, o)
+
+            def on_tx(tx):
+                for i, o in trig:
+                    if (i not in fired and tx.host == o["h"] and not tx.multicast and tx.msg is not None
+                            and tx.msg.is_response and tx.dst[0] != tx.src[0] and tx.t - w.t0 >= o["t"] - 0.46):
+                        w.loop.call_at(w.now + o["after_ucast"], run_trig, i, o)
+
+            w.net.on_tx = on_tx
+            orig_run = drv._run_op
+
+            def _run_op(i, o):
+                # (at the time the scenario names: the latest instant for the op)
+                if o.get("after_ucast") is not None:
+                    return run_trig(i, o)
+                return orig_run(i, o)
+
+            drv._run_op = _run_op
 
         async def main():
             drv.schedule_all()
